@@ -13,6 +13,7 @@ CONSTANTS
   IgnoreTimeout = FALSE
   ForcedWaits = FALSE
   LifoQueue = FALSE
+  DrainOnlyAtStop = FALSE
 SPECIFICATION Spec
 VIEW View
 INVARIANTS C07_Fifo C07_AllAccounted C01_DrainReleases LogInit
